@@ -130,6 +130,7 @@ class World:
         self.teardown = False
         self.gc_mask = None  # statements at which "the cyclic GC runs now" is an environment choice
         self.in_gc = False
+        self.gc_proc = None  # only threads of this virtual process trigger collections (its garbage only)
         self.steps = 0
         self.horizon = horizon
         self.capped = False
@@ -415,7 +416,7 @@ def _vp_hook(k: int) -> None:
         me.pending = None
         raise exc
     g = w.gc_mask
-    if g is not None and w.exploring and k < len(g) and g[k] and not w.in_gc:
+    if g is not None and w.exploring and k < len(g) and g[k] and not w.in_gc and (w.gc_proc is None or me.proc is w.gc_proc):
         # the cyclic collector may run at any allocation: an environment deviation at this statement
         if w.env_choice(2, "gc"):
             w.in_gc = True
